@@ -53,7 +53,7 @@ def cases(tier, seed, phase):
                         dev = {'rcpt%d' % i: c for i, c in enumerate(tup)}
                         dev['eod'] = eod
                         if all(c != '250' for c in tup):
-                            dev['data'] = '554'
+                            dev['data'] = '503' if eod == '250' else '554'      # what real servers say to DATA without a valid recipient
                         yield {'kind': 'smtp', 'lmtp': lmtp, 'pipelining': pipelining, 'nr': nr, 'dev': dev}
     # the same recipient listed twice (positions 0 and 1 carry one address; the peer answers both alike)
     for lmtp in (False, True):
@@ -66,7 +66,8 @@ def cases(tier, seed, phase):
     # two messages over one connection (idle_timeout set): what the first one was told must not colour the second one's result
     for lmtp in (False, True):
         for pipelining in (True, False):
-            for first in ({'rcpt1': '550'}, {'rcpt0': '450'}, {'mail': '550'}, {'eod': '552'}, {}):
+            for first in ({'rcpt1': '550'}, {'rcpt0': '450'}, {'mail': '550'}, {'eod': '552'}, {}, {'rcpt0': '550', 'rcpt1': '550', 'data': '503'},
+                          {'rcpt0': '550', 'rcpt1': '450', 'data': '554'}):
                 for second in ({'mail': 'close'}, {'rcpt0': 'close'}, {'data': 'bad'}, {'eod': 'close'}, {'mail': 'bad'}, {'rcpt1': '450'}, {'eod': '451'}, {}):
                     yield {'kind': 'smtp', 'lmtp': lmtp, 'pipelining': pipelining, 'nr': 2, 'dev': dict(first), 'second': dict(second)}
     for c in ('refused', 'timeout'):
